@@ -20,7 +20,10 @@ RULE = ('Model-based stateful testing of Client / AsyncClient on the real '
         'server DISCONNECT per namespace, emit/send/call on connected and '
         'unconnected namespaces, disconnect(), transport loss at any point '
         '(incl. between a binary header and its attachment and with '
-        'callbacks outstanding), server CLOSE, and new connections; an '
+        'callbacks outstanding), server CLOSE, a server DISCONNECT that '
+        'overlaps the end of the transport (same read as the CLOSE, or the '
+        'transport lost while its asynchronous disconnect handler still '
+        'runs), and new connections; an '
         'application connect handler that raises or (asyncio) outlasts '
         'wait_timeout while the server accepts every namespace; function '
         'and class-based handlers. Oracle: model of what the scripted server '
@@ -94,6 +97,12 @@ def strategy(tier):
                                'kind': st.sampled_from(['emit', 'send']),
                                'data': st.just('d'), 'cb': st.just(True)}),
         st.fixed_dictionaries({'op': st.just('sdisc_all')}),
+        # the server ends one namespace and the connection ends at once (one
+        # read: DISCONNECT packet + engine.io CLOSE), or the transport is
+        # lost while the application's disconnect handler of that namespace
+        # is still running: one invocation per namespace all the same
+        st.fixed_dictionaries({'op': st.just('sdisc_overlap'), 'ns': nsi,
+                               'how': st.sampled_from(['close', 'lose'])}),
         st.fixed_dictionaries({'op': st.just('disconnect')}),
         st.fixed_dictionaries({'op': st.just('lose')}),
         st.fixed_dictionaries({'op': st.just('close')}),
@@ -106,6 +115,9 @@ def strategy(tier):
         # its k-th invocation
         'disc_fault': st.one_of(st.none(), st.none(), st.fixed_dictionaries({
             'ns': nsi, 'k': st.integers(0, 2)})),
+        # asyncio: the disconnect handlers do some asynchronous work (they
+        # yield to the event loop a few times before they return)
+        'disc_yields': st.booleans(),
         'ops': st.lists(op, min_size=3, max_size=40 if big else 18)})
 
 
@@ -127,6 +139,7 @@ def _run(case, h):
     chf_on = [False]
 
     dfault = case.get('disc_fault')
+    yield_on = [False]
     dcount = {}
 
     def rec(kind, ns):
@@ -142,7 +155,13 @@ def _run(case, h):
                 return fd
 
             async def afd(*a):
-                return fd(*a)
+                r = fd(*a)
+                if case.get('disc_yields') and yield_on[0]:
+                    # the handler does some asynchronous work
+                    import asyncio
+                    for _ in range(3):
+                        await asyncio.sleep(0)
+                return r
             return afd
         if kind != 'connect':
             def f(*a):
@@ -545,6 +564,36 @@ def _run(case, h):
                 continue
             nlog = len(log)
             was = sorted(model['accepted'])
+            if k == 'sdisc_overlap':
+                ns = NSS[op['ns']]
+                if ns not in model['accepted'] or model['partial'] or \
+                        not aio:
+                    continue
+                from engineio import packet as ep
+                yield_on[0] = True
+                if op['how'] == 'close':
+                    h.deliver_then_end(wire.frames(wire.DISCONNECT, ns),
+                                       'close')
+                else:
+                    for f in wire.frames(wire.DISCONNECT, ns):
+                        h.loop.spawn(h.eio._receive_packet(
+                            ep.Packet(ep.MESSAGE, f)))
+                    h.loop.step()
+                    h.loop.step()
+                    h.lose()
+                h.loop.run_until_idle()
+                yield_on[0] = False
+                end_model()
+                faulted[0] = True
+                expect_disconnects(nlog, was, 'server DISCONNECT %s + %s'
+                                   % (ns, op['how']))
+                check_ended('after DISCONNECT + ' + op['how'])
+                check_state('after DISCONNECT + ' + op['how'])
+                labels['disconnect_packet_overlaps_the_end'] = True
+                if case.get('disc_yields'):
+                    labels['nontrivial'] = True
+                probe(k)
+                continue
             if k == 'sdisc_all':
                 # the server ends every connected namespace, one by one
                 if model['partial'] or not model['accepted']:
